@@ -384,16 +384,20 @@ func (g *gen) runChainOn(root, db *gorm.DB, parts []part, fin string) (out outco
 		l1 := g.newLeaf("c1", "string")
 		l2 := g.newLeaf("c2", "int")
 		finLeaves = append(ls, l1, l2)
-		res = db.Clauses(clause.OnConflict{Columns: []clause.Column{{Name: "id"}},
-			DoUpdates: clause.Assignments(map[string]interface{}{"c1": l1.val, "c2": gorm.Expr("c2 + ?", l2.val)})}).Create(&t)
+		oc := clause.OnConflict{Columns: []clause.Column{{Name: "id"}},
+			DoUpdates: clause.Assignments(map[string]interface{}{"c1": l1.val, "c2": gorm.Expr("c2 + ?", l2.val)})}
+		finLeaves = append(finLeaves, g.conflictConds(&oc)...)
+		res = db.Clauses(oc).Create(&t)
 	case "UpsertUpdateAll":
 		t, ls := g.tagRecord()
-		finLeaves = ls
-		res = db.Clauses(clause.OnConflict{UpdateAll: true}).Create(&t)
+		oc := clause.OnConflict{UpdateAll: true}
+		finLeaves = append(ls, g.conflictConds(&oc)...)
+		res = db.Clauses(oc).Create(&t)
 	case "UpsertDoNothing":
 		t, ls := g.tagRecord()
-		finLeaves = ls
-		res = db.Clauses(clause.OnConflict{DoNothing: true}).Create(&t)
+		oc := clause.OnConflict{DoNothing: true}
+		finLeaves = append(ls, g.conflictConds(&oc)...)
+		res = db.Clauses(oc).Create(&t)
 	case "Save":
 		t, ls := g.tagRecord()
 		t.ID = 9
@@ -439,6 +443,26 @@ func (g *gen) runChainOn(root, db *gorm.DB, parts []part, fin string) (out outco
 		d = append(d, fin)
 	}
 	return outcome{sql: res.Statement.SQL.String(), vars: res.Statement.Vars, err: res.Error, res: res}, "db." + strings.Join(d, "."), requireKinds, finLeaves
+}
+
+// conflictConds gives an upsert rule the conditions it may carry: DO UPDATE ... WHERE cond and the condition of
+// the conflict target, each with arguments of its own (they follow the record's values in the statement).
+func (g *gen) conflictConds(oc *clause.OnConflict) (ls []*leaf) {
+	if g.r.Intn(3) == 0 {
+		if len(oc.Columns) == 0 {
+			oc.Columns = []clause.Column{{Name: "id"}}
+		}
+		l := g.newLeaf("c3", "float")
+		oc.TargetWhere = clause.Where{Exprs: []clause.Expression{clause.Lt{Column: "c3", Value: l.val}}}
+		ls = append(ls, l)
+	}
+	if !oc.DoNothing && g.r.Intn(2) == 0 {
+		l1 := g.newLeaf("c2", "int")
+		l2 := g.newLeaf("c1", "string")
+		oc.Where = clause.Where{Exprs: []clause.Expression{clause.Gt{Column: "c2", Value: l1.val}, clause.Neq{Column: "c1", Value: l2.val}}}
+		ls = append(ls, l1, l2)
+	}
+	return
 }
 
 func run(c *core.Ctx) {
